@@ -97,16 +97,27 @@ def run_case(job):
         if dim == 2:
             q0[:, 2] = 0.0
         q0 = np.vstack([q0, X0[:3]])  # plus three mesh nodes
+        # plus one interior point per element (up to 80): a convex combination of its vertices with weights that depend on the
+        # element number - the element that contains a point need not own the mesh node closest to it
+        g0 = mesh.groupElem
+        nv = {"TRI": 3, "QUAD": 4, "TETRA": 4, "HEXA": 8, "PRISM": 6}["".join(ch for ch in elem if ch.isalpha())]
+        rngq = np.random.default_rng(0)
+        inner = np.array([rngq.dirichlet(np.ones(nv) * 0.7) @ X0[g0.connect[e, :nv]] for e in range(min(g0.Ne, 160)) for _ in range(3)])
+        n_fixed = len(q0)
+        q0 = np.vstack([q0, inner])
         qm = q0 @ A.T + b
         exp = p(q0[:, 0], q0[:, 1], q0[:, 2])
-        for label, pts, ex in (("batch", qm, exp), ("single", qm[1:2], exp[1:2]), ("pair", qm[:2], exp[:2])):
+        singles = [(f"single-interior", qm[k:k + 1], exp[k:k + 1]) for k in range(n_fixed, len(qm))]
+        for label, pts, ex in [("batch", qm, exp), ("single", qm[1:2], exp[1:2]), ("pair", qm[:2], exp[:2])] + singles:
             try:
                 with quiet():
                     got = np.asarray(mesh.Evaluate_dofsValues_at_coordinates(pts, vals)).ravel()
             except Exception as ex_:
                 viol.append((f"locate-raises/{label}/{key}", f"{key}: Evaluate_dofsValues_at_coordinates raises {type(ex_).__name__}: {ex_} ({label} query)", {"frame": frame, "elem": elem}))
                 continue
-            if got.shape != ex.shape or np.abs(got - ex).max() > 1e-8 * max(1.0, np.abs(ex).max()):
+            # straight-sided simplices are inverted directly; the other types go through scipy's least_squares with its default 1e-8 tolerances
+            tol = 1e-8 if elem.startswith(("TRI", "TETRA")) else 1e-6
+            if got.shape != ex.shape or np.abs(got - ex).max() > tol * max(1.0, np.abs(ex).max()):
                 bad = int(np.argmax(np.abs(got - ex))) if got.shape == ex.shape else -1
                 viol.append((f"locate/{label}/{key}", f"{key}: a degree-{deg} nodal field evaluated at the moved query points ({label}) gives {got}, the polynomial gives {ex} (worst point {bad})", {"frame": frame, "elem": elem}))
     except Exception as ex:
@@ -127,4 +138,5 @@ def run(ctx):
     ctx.sample(frames[min(3, len(frames) - 1)])
     ctx.cov["exhaustive"] = True
     ctx.cov["rule"] = "every frame of Geometry.tla (all sequences of up to MaxMoves motions) replayed on an unstructured mesh of the integer pentagon / its extrusion for every listed element type; distinct = (element type, motion sequence)"
+    ctx.assume("point location is compared at 1e-8 for straight-sided simplices (direct inverse map) and 1e-6 for the element types inverted iteratively (scipy least_squares, default tolerances 1e-8); interior points: three random convex combinations of the vertices of each of the first 160 elements, queried one at a time")
     ctx.assume("serendipity types (QUAD8, HEXA20, PRISM15) are asked for degree 1 only on general straight-sided elements; 2-D meshes moved out of the plane are checked as embedded surfaces (measure, point location) without the in-plane normal test")
